@@ -564,6 +564,25 @@ def generate(rng, tier, index):
                                               700000.0])})
         else:
             history.append({"op": kind})
+    if nl >= 2 and rng.random() < 0.2:
+        # scripted skeleton: several loggers instantiated, one of the earlier
+        # ones dropped (and collected), then the registry is used
+        order = list(range(nl))
+        rng.shuffle(order)
+        history = [{"op": "call", "i": i} for i in order]
+        if rng.random() < 0.4:
+            history.append({"op": "emit", "i": rng.choice(order),
+                            "level": 50, "msg": "plain"})
+        history.append({"op": "drop", "i": rng.choice(order[:-1])})
+        if rng.random() < 0.6:
+            history.append({"op": "gc"})
+        history.append({"op": rng.choice(["reopen-all", "reopen-all",
+                                          "close-all"])})
+        if rng.random() < 0.5:
+            history.append({"op": rng.choice(["reopen-all", "close-all",
+                                              "emit"]), "i": order[-1],
+                            "level": 50, "msg": "plain"})
+        history = history[:6]
     return {"prop": ID, "tag": tag,
             "epoch": float(rng.randint(1500000000, 1900000000)),
             "loggers": loggers, "ops": history}
